@@ -624,7 +624,11 @@ func Run(r *core.Run) {
 		var necMu sync.Mutex
 		necessity := map[string]int{}
 		var necWG sync.WaitGroup
-		for _, cfg := range []string{"Shake.drop.cfg", "Shake.drop3.cfg"} {
+		dropCfg := "Shake.dropq.cfg"
+		if r.Thorough() {
+			dropCfg = "Shake.drop.cfg"
+		}
+		for _, cfg := range []string{dropCfg, "Shake.drop3.cfg"} {
 			designWG.Add(1)
 			necWG.Add(1)
 			go func(cfg string) {
@@ -793,7 +797,7 @@ func Run(r *core.Run) {
 			}
 		}
 		// (2) a seeded sample of the whole product
-		extra := r.Pick(200, 3000)
+		extra := r.Pick(150, 3000)
 		for n := 0; n < extra; n++ {
 			pool := baseIDs
 			if len(exIDs) > 0 && r.Rand.Intn(4) == 0 {
